@@ -898,6 +898,115 @@ def _collect_size(prog, f, sizes, consts, fields):
     return c
 
 
+def flex_capacity_of_field(prog, holder, sname, _seen=None):
+    """capacities of the flexible member of the `sname` objects that the pointer member `holder` = (struct, field) can
+    designate: the allocation sites whose result is stored there, and -- for a pointer taken out of another member (a
+    list head, a link, a cache) -- the sites of that member.  -> list of Cap (one per differently described site), or
+    None if some value stored there has no known allocation (then nothing is claimed about the member)."""
+    _seen = _seen if _seen is not None else set()
+    if holder in _seen:
+        return []
+    _seen.add(holder)
+    st = prog.struct(sname)
+    if st is None:
+        return None
+    sites = []
+    for f in prog.functions():
+        if f.decl:
+            continue
+        for i in f.build().insts():
+            if i.op != "store":
+                continue
+            p = strip_casts(i.ops[1])
+            if not (p.is_inst and p.op == "getelementptr" and p.field()):
+                continue
+            s_, n_ = p.field()
+            if (re.sub(r"\.\d+$", "", s_), n_) != holder:
+                continue
+            work, seen = [i.ops[0]], set()
+            while work:
+                v = strip_casts(work.pop())
+                if id(v) in seen:
+                    continue
+                seen.add(id(v))
+                if v.is_const:
+                    continue            # NULL
+                if v.is_inst and v.op in ("phi", "select"):
+                    work.extend(v.ops if v.op == "phi" else v.ops[1:])
+                    continue
+                if v.is_inst and v.op == "call" and norm_callee(v.callee) in ALLOC_FNS:
+                    nm = norm_callee(v.callee)
+                    sizes = [v.ops[k] for k in ALLOC_FNS[nm] if k < len(v.ops)]
+                    if nm == "alloc_flex":
+                        if const_int(v.ops[0]) != st["size"]:
+                            return None
+                        sizes = [v.ops[1], v.ops[2]]
+                    elif nm in ("malloc",):
+                        # sizeof(*obj) + n
+                        sz = _uncast(v.ops[0])
+                        if sz.is_inst and sz.op == "add":
+                            rest = [o for o in sz.ops if not (o.is_const and o.is_int and o.uval == st["size"])]
+                            if len(rest) == 1:
+                                sizes = [rest[0]]
+                            else:
+                                return None
+                        else:
+                            return None
+                    else:
+                        return None
+                    consts, fields = [], set()
+                    _collect_size(prog, f, sizes, consts, fields)
+                    sites.append(Cap(const=min(consts) if consts and not fields else None, fields=fields,
+                                     desc="flexible member of %s @%s:%d" % (sname.replace("struct.", ""), v.file, v.line)))
+                    continue
+                if v.is_inst and v.op == "load":
+                    q = strip_casts(v.ops[0])
+                    if q.is_inst and q.op == "getelementptr" and q.field():
+                        s2, n2 = q.field()
+                        sub = flex_capacity_of_field(prog, (re.sub(r"\.\d+$", "", s2), n2), sname, _seen)
+                        if sub is None:
+                            return None
+                        sites += sub
+                        continue
+                    if q.is_inst and q.op == "alloca":
+                        # a local that was filled through an out-parameter or plain stores
+                        sts = [u for u in f.uses.get(q, []) if u.op == "store" and strip_casts(u.ops[1]) is q]
+                        if sts and not any(u.op == "call" for u in f.uses.get(q, [])):
+                            work.extend(u.ops[0] for u in sts)
+                            continue
+                    return None
+                return None
+    uniq = []
+    for c in sites:
+        for u in uniq:
+            if u.const == c.const and u.fields == c.fields:
+                break
+        else:
+            uniq.append(c)
+    return uniq
+
+
+def flex_capacity_sites(prog, sname):
+    """one Cap per (differently described) alloc_flex site of struct sname"""
+    st = prog.struct(sname)
+    if st is None:
+        return []
+    sites = []
+    for f in prog.functions():
+        for c in f.calls("alloc_flex"):
+            if const_int(c.ops[0]) != st["size"]:
+                continue
+            if not any(u.op == "bitcast" and u.ty.startswith("%" + sname) for u in f.uses.get(c, [])):
+                continue
+            consts, fields = [], set()
+            _collect_size(prog, f, [c.ops[1], c.ops[2]], consts, fields)
+            cap = Cap(const=min(consts) if consts and not fields else None, fields=fields,
+                      desc="flexible member of %s @%s:%d" % (sname.replace("struct.", ""), c.file, c.line))
+            if not any(u.const == cap.const and u.fields == cap.fields for u in sites):
+                sites.append(cap)
+    return sites
+
+
 def flex_capacity(prog, sname):
     """capacity of the flexible array member of struct sname from alloc_flex(sizeof, item, count) sites"""
     consts, fields = [], set()
